@@ -64,7 +64,8 @@ ASSUMPTIONS = [
 BASE = [0.0, 1.5, -1.5, 1e-7, 123456.789, 1e10, -3.25e-4]
 FAMS = ["zero", "pm1.5", "tiny", "mid", "big", "negsmall", "mixed", "tagged", "tagged_tiny",
         "tagged_big", "tagged_int"]
-LABELSETS = [None, ["1", "2"], ["a", "B"], ["Yes", "no"], [0, 1], [1, 0], [0, 2]]
+LABELSETS = [None, ["1", "2"], ["a", "B"], ["Yes", "no"], [0, 1], [1, 0], [0, 2],
+             ["c#1", "c#2"], [1234567.0, 1234568.0], [22050.25, 0.5]]
 COMMENTS = {
     "none": None,
     "short": "a short comment",
